@@ -84,13 +84,49 @@ def _solve_cli(args):
         os.unlink(path)
 
 
+def robust_map(fn, jobs, workers, attempts=3):
+    """ordered results of fn over jobs in worker processes; a worker that dies (z3 has been seen to segfault sporadically) only costs a retry of the jobs that
+    had not finished - never the whole check.  A job that kills its worker `attempts` times raises."""
+    from concurrent.futures.process import BrokenProcessPool
+    results = {}
+    todo = list(range(len(jobs)))
+    last = None
+    for attempt in range(attempts):
+        if not todo:
+            break
+        # after a crash, run what is left with fewer processes (one job per process on the last attempt)
+        w = max(1, min(workers, len(todo)) if attempt == 0 else min(4, len(todo)))
+        ex = ProcessPoolExecutor(max_workers=w)
+        futs = {i: ex.submit(fn, jobs[i]) for i in todo}
+        nxt = []
+        for i, f in futs.items():
+            try:
+                results[i] = f.result()
+            except BrokenProcessPool as e:
+                last = e
+                nxt.append(i)
+        ex.shutdown(wait=False, cancel_futures=True)
+        todo = nxt
+    if todo:
+        raise last
+    return [results[i] for i in range(len(jobs))]
+
+
+class _Robust:
+    def __init__(self, workers):
+        self.workers = workers
+
+    def map(self, fn, items, chunksize=1):
+        return robust_map(fn, list(items), self.workers)
+
+
 _POOL = None
 
 
 def pool():
     global _POOL
     if _POOL is None:
-        _POOL = ProcessPoolExecutor(max_workers=WORKERS)
+        _POOL = _Robust(WORKERS)
     return _POOL
 
 
